@@ -111,6 +111,20 @@ impl<'a, 'b> G<'a, 'b> {
     }
 }
 
+/// Standard C / POSIX functions with the number of their (non-variadic) parameters, written down from the
+/// prototypes in the C standard and POSIX (not from the analyzer's stub table). All parameters are integers or
+/// pointers, i.e. passed in the first integer parameter registers.
+pub const LIBC: [(&str, usize); 62] = [
+    ("abort", 0), ("atoi", 1), ("bind", 3), ("calloc", 2), ("close", 1), ("connect", 3), ("exit", 1), ("fclose", 1), ("fflush", 1),
+    ("fgets", 3), ("fopen", 2), ("fork", 0), ("fputc", 2), ("fputs", 2), ("fread", 4), ("free", 1), ("fwrite", 4), ("getenv", 1),
+    ("getpid", 0), ("getppid", 0), ("gettimeofday", 2), ("kill", 2), ("localtime", 1), ("malloc", 1), ("memcmp", 3), ("memcpy", 3),
+    ("memmove", 3), ("memset", 3), ("perror", 1), ("putchar", 1), ("puts", 1), ("qsort", 4), ("raise", 1), ("read", 3), ("realloc", 2),
+    ("recv", 4), ("recvfrom", 6), ("select", 5), ("sendto", 6), ("setsockopt", 5), ("signal", 2), ("sleep", 1), ("socket", 3),
+    ("strcasecmp", 2), ("strcat", 2), ("strchr", 2), ("strcmp", 2), ("strcpy", 2), ("strdup", 1), ("strerror", 1), ("strlen", 1),
+    ("strncasecmp", 3), ("strncat", 3), ("strncmp", 3), ("strncpy", 3), ("strrchr", 2), ("strstr", 2), ("strtol", 3), ("strtoul", 3),
+    ("system", 1), ("time", 1), ("unlink", 1),
+];
+
 pub fn decode(t: &mut Tape) -> Case {
     let mut g = G { t };
     let nsubs = 1 + g.t.below(4);
@@ -119,6 +133,7 @@ pub fn decode(t: &mut Tape) -> Case {
     let ext_exit = tid("ext_exit", "UNKNOWN");
     let ext_printf = tid("ext_printf", "UNKNOWN");
     let ext_sprintf = tid("ext_sprintf", "UNKNOWN");
+    let ext_int = tid("ext_int", "UNKNOWN");
     let externs = vec![
         extern_symbol(ext_use.clone(), "ext_use", &["RDI"], false),
         extern_symbol(ext_two.clone(), "ext_two", &["RDI", "RSI", "RDX"], false),
@@ -136,7 +151,29 @@ pub fn decode(t: &mut Tape) -> Case {
             e.has_var_args = true;
             e
         },
+        // `int`/`char` parameters: the lifter describes them as the low bytes of the parameter register
+        {
+            let mut e = extern_symbol(ext_int.clone(), "ext_int", &[], false);
+            e.parameters = vec![
+                Arg::Register { expr: esub(0, 4, evar(&var("RDI", 8))), data_type: None },
+                Arg::Register { expr: esub(0, 1, evar(&var("RDX", 8))), data_type: None },
+            ];
+            e
+        },
     ];
+    // three library functions per case, declared with the parameters of their prototypes
+    let mut externs = externs;
+    let mut libc_tids: Vec<Tid> = vec![];
+    {
+        let first = g.t.below(LIBC.len());
+        for k in 0..3 {
+            let (name, arity) = LIBC[(first + k * 21) % LIBC.len()];
+            let t = tid(&format!("ext_libc_{}", name), "UNKNOWN");
+            let no_return = name == "abort" || name == "exit";
+            externs.push(extern_symbol(t.clone(), name, &PARAM_REGS[..arity], no_return));
+            libc_tids.push(t);
+        }
+    }
     let mut subs = vec![];
     for si in 0..nsubs {
         let sbase = 0x1000 * (si as u64 + 1);
@@ -164,7 +201,11 @@ pub fn decode(t: &mut Tape) -> Case {
                     vec![jmp(jt, Jmp::Return(evar(&tv)))]
                 }
                 8 | 9 => {
-                    let tg = match g.t.below(7) {
+                    let tg = match g.t.below(11) {
+                        7 => ext_int.clone(),
+                        8 => libc_tids[0].clone(),
+                        9 => libc_tids[1].clone(),
+                        10 => libc_tids[2].clone(),
                         0 => ext_exit.clone(),
                         1 => ext_two.clone(),
                         5 => ext_printf.clone(),
@@ -264,7 +305,8 @@ fn block_gen_kill(project: &Project, b: &Term<Blk>, params: &BTreeSet<String>, c
                     if !sym.no_return && return_.is_some() {
                         for a in &sym.parameters {
                             if let Arg::Register { expr, .. } = a {
-                                add_use(&mut gen, &killed, expr, "extern-call-declared-parameter");
+                                let kind = if matches!(expr, Expression::Var(_)) { "extern-call-declared-parameter" } else { "extern-call-declared-subregister-parameter" };
+                                add_use(&mut gen, &killed, expr, kind);
                             }
                         }
                         if sym.has_var_args {
